@@ -25,7 +25,8 @@ class Remote:
                 env[k] = str(threads)
         if numba_dir:
             env["NUMBA_CACHE_DIR"] = numba_dir
-        env["PYTHONHASHSEED"] = "0"
+        # a user's fresh processes hash strings differently: every worker process gets its own, fixed, hash seed (the parent runs with 0)
+        env["PYTHONHASHSEED"] = str(1 + sum(ord(c) for c in proc) % 7)
         self.p = subprocess.Popen(["/venv/bin/python", "-m", "drivers.lifeworker", proc, store_dir], cwd=VERIF, env=env,
                                   stdin=subprocess.PIPE, stdout=subprocess.PIPE, stderr=subprocess.DEVNULL, text=True)
         ready = self.p.stdout.readline()
